@@ -72,16 +72,14 @@ impl WorkerState {
     }
 
     pub(crate) fn remaining_time(&self) -> Option<Duration> {
-        #[cfg(feature = "verif")]
-        if crate::verif::sim_clock_active() {
-            // Same computation as below, reading the simulated clock
-            return self
-                .configuration
-                .time_limit
-                .map(|limit| limit - (crate::verif::now() - self.start_time));
-        }
         if let Some(limit) = self.configuration.time_limit {
             let life_time = Instant::now() - self.start_time;
+            #[cfg(feature = "verif")]
+            let life_time = if crate::verif::sim_clock_active() {
+                crate::verif::now() - self.start_time
+            } else {
+                life_time
+            };
             Some(limit - life_time)
         } else {
             None
